@@ -111,6 +111,14 @@ func TestVerif_HealthSched(t *testing.T) {
 				w.WriteHeader(503)
 			case "timeout":
 				<-r.Context().Done()
+			case "eof":
+				// hang up without a word: a connection error, not an error status
+				if hj, ok := w.(http.Hijacker); ok {
+					if c, _, err := hj.Hijack(); err == nil {
+						c.Close()
+						return
+					}
+				}
 			default:
 				w.WriteHeader(200)
 			}
@@ -149,7 +157,11 @@ func TestVerif_HealthSched(t *testing.T) {
 			case <-ctx.Done():
 				return ctx.Err()
 			case <-time.After(40 * time.Millisecond):
-				cbs.Add(1)
+				// in every other scenario the FIRST re-discovery fails (the backend was not ready to list yet): it was
+				// triggered all the same, and later recoveries must trigger theirs
+				if cbs.Add(1) == 1 && sn%2 == 1 {
+					return errors.New("verif: model listing not ready")
+				}
 				return nil
 			}
 		}))
